@@ -95,6 +95,7 @@ class Eval:
         self.asg = assignment
         self.consulted = consulted
         self.depth = 0
+        self.assigned = {}      # variables re-assigned on the (concrete) path evaluated so far
 
     # ------------------------------------------------------------ helpers
     def var(self, key, label):
@@ -167,8 +168,11 @@ class Eval:
         return self.var(key, "opaque condition `%s`" % show(e)[:80])
 
     def contains_return(self, e):
+        """statements that must be executed eagerly: early returns and re-assignments of locals"""
         for n in F.walk(e):
             if n.get("k") == "Return":
+                return True
+            if n.get("k") == "Assign" and strip(n["l"]).get("k") in ("VarRef", "UpvarRef"):
                 return True
         return False
 
@@ -200,9 +204,16 @@ class Eval:
                 return self.ev(e["e"], env)
             return Unknown("unit")
         if k in ("VarRef", "UpvarRef"):
+            if e["v"] in self.assigned:
+                return self.force(self.assigned[e["v"]])
             if e["v"] in env:
                 return self.force(env[e["v"]])
             return Unknown("unbound %s" % e["v"])
+        if k == "Assign":
+            l = strip(e["l"])
+            if l.get("k") in ("VarRef", "UpvarRef"):
+                self.assigned[l["v"]] = self.force(self.ev(e["r"], env))
+            return Unknown("unit")
         if k in ("Borrow", "Deref", "RawBorrow"):
             return self.ev(e["e"], env)
         if k == "Literal":
@@ -361,6 +372,24 @@ class Eval:
                 if r.b == want:
                     return Bool(want)
             return Bool(not want)
+        if cal == "core::iter::traits::iterator::Iterator::flatten" and len(args) == 1:
+            v = self.force(self.ev(args[0], env))
+            if isinstance(v, Vec):
+                out = []
+                for it in v.items:
+                    x = self.force(it)
+                    if isinstance(x, Opt):
+                        if x.present:
+                            out.append(x.inner)
+                    else:
+                        raise Unclassified("flatten over elements that are not options")
+                return Vec(out)
+            return Unknown("flatten")
+        if cal == "core::iter::traits::iterator::Iterator::collect" and len(args) == 1:
+            v = self.force(self.ev(args[0], env))
+            if isinstance(v, Vec):
+                return v
+            return Unknown("collect")
         if cal == "core::iter::traits::iterator::Iterator::map" and len(args) == 2:
             v = self.force(self.ev(args[0], env))
             if isinstance(v, Vec):
